@@ -297,6 +297,13 @@ func negotiateFeatures(ctx context.Context, s *Session, first, ws bool, features
 		}
 	}
 
+	// A feature that reports Ready does not finish the negotiation while another
+	// mandatory feature of the same advertisement is still eligible and has not
+	// been negotiated: the next features list decides.
+	if err == nil && mask&Ready == Ready && mandatoryLeft(s, list) {
+		mask &^= Ready
+	}
+
 	// If the list contains no required features and a stream restart is not
 	// required,  negotiation is complete.
 	if !list.req && rw == nil {
@@ -304,6 +311,20 @@ func negotiateFeatures(ctx context.Context, s *Session, first, ws bool, features
 	}
 
 	return mask, rw, err
+}
+
+// mandatoryLeft reports whether the list contains a mandatory feature that
+// has not been negotiated and whose prerequisites hold in the current state.
+func mandatoryLeft(s *Session, list *streamFeaturesList) bool {
+	for _, v := range list.cache {
+		if _, ok := s.negotiated[v.feature.Name.Space]; ok || !v.req || v.feature.Negotiate == nil {
+			continue
+		}
+		if s.state&v.feature.Necessary == v.feature.Necessary && s.state&v.feature.Prohibited == 0 {
+			return true
+		}
+	}
+	return false
 }
 
 type sfData struct {
